@@ -284,6 +284,22 @@ theorem copy_core (src : Dir) (s : List Chunk) (rid : String) (re : Bool) (rt : 
   simp only [hload, bind, Except.bind]
   exact h1
 
+/-- with a loader per target every iteration of the loop is a full `copyData` -/
+theorem copyLoop_fresh (a0 : Int) (src : Dir) (rechunk : Bool) (rechunkTo : Nat) (dst : Dir)
+    (h : copyData a0 src rechunk rechunkTo = .ok dst) : ∀ (n : Nat) (shared : List Chunk),
+    copyLoop a0 src (copyHeader src.1.hdr rechunk rechunkTo) rechunk true shared n = List.replicate n (.ok dst) := by
+  intro n
+  induction n with
+  | zero => intro _; rfl
+  | succ n ih =>
+    intro shared
+    unfold copyData at h
+    cases hl : loadDir src with
+    | error e => simp [hl, bind, Except.bind] at h
+    | ok cs =>
+      simp only [hl, bind, Except.bind] at h
+      simp only [copyLoop, if_true, hl, h, ih [], List.replicate_succ]
+
 /-! ### the stand-alone rechunker: plan and store -/
 
 def safeOp : FsOp → Bool
